@@ -1,4 +1,4 @@
-(* Props/C15Known.v - refutations: for each flag claimed `true` in Actual/DispatchActual.v a concrete input on
+(* Props/C15Known.v - refutations: for the flag claimed `true` in Actual/DispatchActual.v a concrete input on
    which the faithful model differs from the specification (closed by vm_compute).  The same inputs are in
    corpus/C15 and are replayed on the implementation on every run. *)
 From TL Require Import Lib.Base Model.DispatchTypes Gen.DispatchGen Model.Dispatch Model.DispatchRun Actual.DispatchActual.
@@ -10,13 +10,6 @@ Definition w_tab : atab :=
 (* notes.txt starting with a python shebang is linted as Python although .txt is not a recognised type *)
 Definition w_txt : file := mk_file "notes.txt" "#!/usr/bin/env python" true true.
 Theorem C15_shebang_any_ext_refuted :
+  cfg_clean [] = true /\
   run_cmd dispatch_actual "nesting" [] w_tab w_txt <> Ok (spec_out "nesting" w_tab w_txt).
-Proof. vm_compute. discriminate. Qed.
-
-(* `srp: {max_methods: 0}` (rejected by SRPConfig for every language) makes `thailint nesting` fail *)
-Definition w_py : file := mk_file "mod_a.py" "import os" true true.
-Definition w_cfg : cfg := [mk_section "srp" ["python"; "typescript"; "javascript"; "rust"; "java"; "go"; "unknown"]].
-Theorem C15_foreign_reject_aborts_refuted :
-  own_cfg_ok "nesting" w_cfg = true /\
-  run_cmd dispatch_actual "nesting" w_cfg w_tab w_py <> Ok (spec_out "nesting" w_tab w_py).
 Proof. vm_compute. split; [reflexivity|discriminate]. Qed.
